@@ -123,6 +123,9 @@ func (w *keyWrapper) WrapKey(cek []byte, opts any) ([]byte, error) {
 		}
 		setter.SetInitializationVector(iv)
 	}
+	if len(iv) != w.aead.NonceSize() {
+		return nil, fmt.Errorf("agcmkw: the size of iv must be %d bytes, but got: %d", w.aead.NonceSize(), len(iv))
+	}
 	tag, ok := opts.(authenticationTagSetter)
 	if !ok {
 		return nil, errors.New("agcmkw: SetAuthenticationTag not found")
@@ -149,11 +152,18 @@ func (w *keyWrapper) UnwrapKey(data []byte, opts any) ([]byte, error) {
 		return nil, errors.New("agcmkw: AuthenticationTag not found")
 	}
 
+	ivBytes := iv.InitializationVector()
+	if len(ivBytes) != w.aead.NonceSize() {
+		return nil, fmt.Errorf("agcmkw: the size of iv must be %d bytes, but got: %d", w.aead.NonceSize(), len(ivBytes))
+	}
 	tagBytes := tag.AuthenticationTag()
+	if len(tagBytes) != w.aead.Overhead() {
+		return nil, fmt.Errorf("agcmkw: the size of tag must be %d bytes, but got: %d", w.aead.Overhead(), len(tagBytes))
+	}
 	buf := make([]byte, len(data)+len(tagBytes))
 	copy(buf, data)
 	copy(buf[len(data):], tagBytes)
-	cek, err := w.aead.Open(buf[:0], iv.InitializationVector(), buf, []byte{})
+	cek, err := w.aead.Open(buf[:0], ivBytes, buf, []byte{})
 	if err != nil {
 		return nil, fmt.Errorf("agcmkw: failed decrypt CEK: %w", err)
 	}
